@@ -6,10 +6,11 @@ callees let escape, minus what enclosing handlers at the raise/call site catch."
 from __future__ import annotations
 
 import ast
+import re
 from dataclasses import dataclass, field
 from typing import Callable, Optional
 
-from .prog import FuncInfo, Program, call_name, short, stmt_head, unparse, walk_no_nested
+from .prog import FuncInfo, Program, call_name, init_params, short, stmt_head, unparse, walk_no_nested
 from .raises import bases_of, exc_class_of, handler_names, is_sigma_error
 from .util import cfg_of, assignments_to, atomic_guards, guards_at
 
@@ -56,12 +57,46 @@ class EscapeAnalysis:
         self.types = ctx.types
         self.cg = ctx.cg
         self.in_scope = in_scope
+        self._entry_taint = {k: set(v) for k, v in entry_taint.items()}
         self.taint: dict[str, set[str]] = {k: set(v) for k, v in entry_taint.items()}
+        self.field_taint: set[tuple[str, str]] = set()
+        self.new_field_taint: set[tuple[str, str]] = set()
+        self.field_key_taint: set[tuple[str, str]] = set()
+        self.new_field_key_taint: set[tuple[str, str]] = set()
         self.escapes: dict[str, dict[tuple, Esc]] = {}
         self._local_taint_cache: dict[str, set[str]] = {}
         self.n_ops = 0
 
     # ------------------------------------------------------------------ taint
+    def _field_tainted(self, fi: FuncInfo, e: ast.AST) -> bool:
+        """e is (a projection of) an attribute read X.f where f is a field that a loader may leave holding a document
+        value of unchecked type (a recorded-but-kept invalid value), X typed as the class (or a sub/superclass)."""
+        ft = getattr(self, "field_taint", None)
+        if not ft:
+            return False
+        while isinstance(e, (ast.Subscript, ast.Call)):
+            if isinstance(e, ast.Call):
+                if isinstance(e.func, ast.Attribute) and e.func.attr in DICT_METHODS:
+                    e = e.func.value
+                else:
+                    return False
+            else:
+                e = e.value
+        if not isinstance(e, ast.Attribute):
+            return False
+        cands = [k for k, f in ft if f == e.attr]
+        if not cands:
+            return False
+        if isinstance(e.value, ast.Name) and e.value.id == "self" and fi.cls is not None:
+            recv = [fi.cls.qual]
+        else:
+            recv = [c for c in self.types.class_names(fi.module, e.value) if c in self.prog.classes]
+        for rc in recv:
+            for k in cands:
+                if k == rc or k in self.prog.mro(rc) or rc in self.prog.mro(k):
+                    return True
+        return False
+
     def _root_name(self, e: ast.AST) -> Optional[str]:
         while isinstance(e, (ast.Attribute, ast.Subscript, ast.Call)):
             if isinstance(e, ast.Call):
@@ -94,11 +129,18 @@ class EscapeAnalysis:
                 elif isinstance(n, (ast.For, ast.comprehension)):
                     tgt_names = [x.id for x in ast.walk(n.target) if isinstance(x, ast.Name)]
                     src = n.iter
+                    kt = self._key_tainted_iter(fi, src)
+                    if kt:
+                        first = n.target.elts[0] if isinstance(n.target, ast.Tuple) and n.target.elts else n.target
+                        if isinstance(first, ast.Name) and first.id not in names:
+                            names.add(first.id)
+                            changed = True
+                        continue
                     if isinstance(src, ast.Call) and call_name(src) in ("enumerate", "zip", "sorted", "reversed", "list"):
                         src = src.args[-1] if src.args else None
                 if src is None or not tgt_names:
                     continue
-                if self._expr_tainted_by_names(src, names):
+                if self._expr_tainted_by_names(src, names) or self._field_tainted(fi, src):
                     for t in tgt_names:
                         if t not in names:
                             names.add(t)
@@ -124,11 +166,23 @@ class EscapeAnalysis:
             return self._expr_tainted_by_names(e.body, names) or self._expr_tainted_by_names(e.orelse, names)
         if isinstance(e, (ast.Tuple, ast.List)):
             return any(self._expr_tainted_by_names(x, names) for x in e.elts)
+        if isinstance(e, ast.DictComp):
+            # {k: f(v) for k, v in doc.items()}: the keys are the document's keys
+            bound = set()
+            for g in e.generators:
+                it = g.iter
+                if isinstance(it, ast.Call) and isinstance(it.func, ast.Attribute) and it.func.attr in ("items", "keys"):
+                    it = it.func.value
+                if self._expr_tainted_by_names(it, names):
+                    bound |= {x.id for x in ast.walk(g.target) if isinstance(x, ast.Name)}
+            return isinstance(e.key, ast.Name) and e.key.id in bound
         return False
 
     def is_tainted(self, fi: FuncInfo, e: ast.AST) -> bool:
         names = self.local_tainted_names(fi)
         if self._expr_tainted_by_names(e, names):
+            return True
+        if self._field_tainted(fi, e):
             return True
         a = self.types.is_any(fi.module, e)
         if a:
@@ -144,6 +198,9 @@ class EscapeAnalysis:
         document-derived assignment (or the function entry) first keeps the name tainted."""
         if not self.is_tainted(fi, e):
             return False
+        nt = self.narrowed(fi, e, at)
+        if nt is not None and (nt.startswith("list[") or nt.split(".")[-1] in ("str", "int", "float", "bool", "UUID", "date", "datetime")):
+            return False  # checked down to the elements / a scalar: nothing of unchecked type is left in it
         if not isinstance(e, ast.Name) or e.id in fi.params():
             return True
         name = e.id
@@ -171,6 +228,10 @@ class EscapeAnalysis:
                 t = unparse(a)
                 if (t == f"{name} is None" and node.polarity) or (t == f"{name} is not None" and node.polarity is False):
                     continue  # on this edge the name holds None
+                m_ = re.fullmatch(r"(not )?isinstance\(" + re.escape(name) + r", ([\w.]+)\)", t)
+                if m_ and m_.group(2).split(".")[-1] in ("str", "int", "float", "bool", "UUID", "date", "datetime") \
+                        and ((m_.group(1) is None and node.polarity) or (m_.group(1) and node.polarity is False)):
+                    continue  # on this edge the name was checked to be a scalar of that type
             if node.kind in ("stmt", "with-enter", "for") and a is not None:
                 kill = None
                 if isinstance(a, ast.Assign) and any(isinstance(t, ast.Name) and t.id == name for t in a.targets):
@@ -178,16 +239,80 @@ class EscapeAnalysis:
                 elif isinstance(a, ast.AnnAssign) and isinstance(a.target, ast.Name) and a.target.id == name and a.value is not None:
                     kill = a.value
                 if kill is not None:
+                    if self._checked_value(fi, kill, a):
+                        continue
                     if self._expr_tainted_by_names(kill, names - {name}) or (self._expr_tainted_by_names(kill, names) and not isinstance(kill, ast.Name)):
                         return True  # a document-derived definition reaches the use
                     continue
             stack.extend((p, p_kind_exc(cfg, p, nid)) for p in node.pred)
         return False
 
+    def _key_tainted_iter(self, fi: FuncInfo, it: ast.AST) -> bool:
+        """it iterates the keys (X, X.keys(), X.items()) of a field whose dict was built with the document's own keys."""
+        if not self.field_key_taint:
+            return False
+        if isinstance(it, ast.Call) and isinstance(it.func, ast.Attribute) and it.func.attr in ("items", "keys"):
+            it = it.func.value
+        if not isinstance(it, ast.Attribute):
+            return False
+        cands = [k for k, f in self.field_key_taint if f == it.attr]
+        if not cands:
+            return False
+        if isinstance(it.value, ast.Name) and it.value.id == "self" and fi.cls is not None:
+            recv = [fi.cls.qual]
+        else:
+            recv = [c for c in self.types.class_names(fi.module, it.value) if c in self.prog.classes]
+        return any(k == rc or k in self.prog.mro(rc) or rc in self.prog.mro(k) for rc in recv for k in cands)
+
+    def _kwargs_sources(self, fi: FuncInfo, name: str) -> list[tuple[str, ast.AST, FuncInfo, ast.AST]]:
+        """(key, value expression, helper function, its return statement) for a local that holds a dict returned by a helper
+        as a dict display, possibly as first element of a returned tuple:  kwargs, errors = super().helper(...)"""
+        out = []
+        for n in walk_no_nested(fi.node):
+            if not isinstance(n, ast.Assign) or not isinstance(n.value, ast.Call):
+                continue
+            t = n.targets[0]
+            pos = None
+            if isinstance(t, ast.Name) and t.id == name:
+                pos = -1
+            elif isinstance(t, ast.Tuple):
+                for i, x in enumerate(t.elts):
+                    if isinstance(x, ast.Name) and x.id == name:
+                        pos = i
+            if pos is None:
+                continue
+            for site in self.cg.sites.get(fi.qual, []):
+                if site.node is not n.value:
+                    continue
+                for callee in site.callees:
+                    hfi = self.prog.funcs.get(callee)
+                    if hfi is None:
+                        continue
+                    for ret in (x for x in walk_no_nested(hfi.node) if isinstance(x, ast.Return) and x.value is not None):
+                        d = ret.value
+                        if pos is not None and pos >= 0 and isinstance(d, ast.Tuple) and pos < len(d.elts):
+                            d = d.elts[pos]
+                        if isinstance(d, ast.Dict):
+                            for k, v in zip(d.keys, d.values):
+                                if isinstance(k, ast.Constant) and isinstance(k.value, str):
+                                    out.append((k.value, v, hfi, ret))
+        return out
+
+    def _checked_value(self, fi: FuncInfo, v: ast.AST, at: ast.AST) -> bool:
+        """v is, at statement ``at``, a value whose type was checked down to scalars: a narrowed scalar / element-checked
+        list, or a list/tuple display of such values ([doc["condition"]] under isinstance(doc["condition"], str))."""
+        scalars = ("str", "int", "float", "bool", "UUID", "date", "datetime")
+        nt = self.narrowed(fi, v, at)
+        if nt is not None and (nt.startswith("list[") or nt.split(".")[-1] in scalars):
+            return True
+        if isinstance(v, (ast.List, ast.Tuple)) and v.elts:
+            return all(not self.is_tainted(fi, x) or self._checked_value(fi, x, at) for x in v.elts)
+        return False
+
     def _fresh_container(self, v: ast.AST) -> bool:
         while isinstance(v, ast.Call) and call_name(v) == "cast" and len(v.args) == 2:
             v = v.args[1]
-        return isinstance(v, (ast.Dict, ast.List)) or (isinstance(v, ast.Call) and call_name(v) in ("dict", "list") and not v.args)
+        return isinstance(v, (ast.Dict, ast.List, ast.DictComp, ast.ListComp, ast.SetComp)) or (isinstance(v, ast.Call) and call_name(v) in ("dict", "list") and not v.args)
 
     def narrowed(self, fi: FuncInfo, e: ast.AST, at: ast.AST, _depth: int = 0) -> Optional[str]:
         """Type text e is narrowed to at node ``at`` by a dominating isinstance guard (or None)."""
@@ -223,6 +348,11 @@ class EscapeAnalysis:
         for g, pol in atomic_guards(guards_at(self.prog, fi, at)):
             if pol and g.startswith(f"isinstance({txt}, "):
                 return g[len(f"isinstance({txt}, "):-1]
+            # element check: all(isinstance(x, T) for x in <e>) holds on the way here
+            if pol:
+                m_ = re.fullmatch(r"all\(\(?isinstance\((\w+), ([\w., ()]+)\) for \1 in " + re.escape(txt) + r"\)?\)", g)
+                if m_:
+                    return f"list[{m_.group(2)}]"
             if pol and (g.startswith(f"{txt} in ") or g.startswith(f"{txt} == ")) and not g.startswith(f"{txt} in self."):
                 return "checked-member"
         if isinstance(e, ast.Name) and _depth < 3:
@@ -245,7 +375,7 @@ class EscapeAnalysis:
                 kinds = set()
                 for v in defs:
                     if isinstance(v, ast.AST) and not isinstance(v, (ast.stmt, ast.comprehension)) and self._fresh_container(v):
-                        kinds.add("dict" if "dict" in unparse(v) or isinstance(v, ast.Dict) else "list")
+                        kinds.add("dict" if isinstance(v, (ast.Dict, ast.DictComp)) or (isinstance(v, ast.Call) and "dict" in unparse(v)) else "list")
                     elif isinstance(v, ast.Name):
                         k = self.narrowed(fi, v, v, _depth + 1)
                         kinds.add(k if k else "?")
@@ -255,6 +385,8 @@ class EscapeAnalysis:
                         kinds.add("?")
                 if kinds and "?" not in kinds and all("dict" in k for k in kinds):
                     return "dict"
+                if kinds == {"list"}:
+                    return "list"
         t = self.types.type_str(fi.module, e)
         if t and t not in ("Any",) and not t.startswith("Any") and isinstance(e, ast.Name) and e.id not in self.taint.get(fi.qual, ()):
             return None
@@ -266,6 +398,11 @@ class EscapeAnalysis:
         out = []
         prog = self.prog
         for n in walk_no_nested(fi.node):
+            if isinstance(n, ast.Subscript) and not self.is_tainted(fi, n.value) and not isinstance(n.slice, (ast.Slice, ast.Constant)):
+                tr = (self.types.type_str(fi.module, n.value) or "").split("[")[0].split(".")[-1].lower()
+                if tr in ("dict", "defaultdict", "ordereddict") and self.is_tainted(fi, n.slice) and self.narrowed(fi, n.slice, n) is None and not self._is_dict_key(fi, n.slice):
+                    self.n_ops += 1
+                    out.append((n, ("TypeError",), self._root_name(n.slice) or unparse(n.slice), f"{short(n.slice, 40)} is hashed as key of {short(n.value, 40)}: a list or map from the document is unhashable"))
             if isinstance(n, ast.Attribute) and isinstance(n.ctx, ast.Load):
                 v = n.value
                 if not self.is_tainted(fi, v):
@@ -327,8 +464,32 @@ class EscapeAnalysis:
                     if hashed:
                         self.n_ops += 1
                         out.append((n, ("TypeError",), self._root_name(left) or unparse(left), f"{short(left, 40)} is hashed by the membership test in {short(c, 40)}: a list or map from the document is unhashable"))
+            elif isinstance(n, ast.BinOp) and isinstance(n.op, (ast.Add, ast.Mod)) and not isinstance(n.op, ast.Mod):
+                # str + <document value of unchecked type>
+                for a, b in ((n.left, n.right), (n.right, n.left)):
+                    ta = self.types.type_str(fi.module, a) or ""
+                    if (isinstance(a, ast.Constant) and isinstance(a.value, str)) or ta in ("builtins.str", "str"):
+                        if self.is_tainted(fi, b) and self.narrowed(fi, b, n) is None and not (isinstance(b, ast.Constant)):
+                            tb = self.types.type_str(fi.module, b) or ""
+                            if tb in ("builtins.str", "str") and not self._from_mapping_key(fi, b):
+                                continue
+                            self.n_ops += 1
+                            out.append((n, ("TypeError",), self._root_name(b) or unparse(b), f"str + {short(b, 40)}: a document value of unchecked type is concatenated to a string"))
+                            break
             elif isinstance(n, ast.Call):
                 d = call_name(n)
+                if isinstance(n.func, ast.Attribute) and n.func.attr == "join" and n.args and isinstance(n.func.value, ast.Constant) and isinstance(n.func.value.value, str):
+                    a0 = n.args[0]
+                    inner = a0.args[0] if isinstance(a0, ast.Call) and call_name(a0) in ("sorted", "list", "set", "tuple") and a0.args else a0
+                    if self._key_collection(fi, inner):
+                        self.n_ops += 1
+                        out.append((n, ("TypeError",), self._root_name(inner) or unparse(inner), f"join over {short(inner, 40)}: keys of a document map need not be strings"))
+                if isinstance(n.func, ast.Attribute) and n.func.attr in ("get", "setdefault", "add", "pop", "discard", "remove") and n.args:
+                    tr = (self.types.type_str(fi.module, n.func.value) or "").split("[")[0].split(".")[-1].lower()
+                    k0 = n.args[0]
+                    if tr in ("dict", "defaultdict", "set", "frozenset") and not self.is_tainted(fi, n.func.value) and self.is_tainted(fi, k0) and self.narrowed(fi, k0, n) is None and not self._is_dict_key(fi, k0):
+                        self.n_ops += 1
+                        out.append((n, ("TypeError",), self._root_name(k0) or unparse(k0), f"{short(k0, 40)} is hashed by {short(n.func, 40)}(): a list or map from the document is unhashable"))
                 excs = CONVERTERS.get(d)
                 if excs is None and d.split(".")[-1] in ("UUID",):
                     excs = CONVERTERS["UUID"]
@@ -356,6 +517,28 @@ class EscapeAnalysis:
                         self.n_ops += 1
                         out.append((n, ("KeyError",), unparse(n.slice), f"enum lookup {short(n, 50)} with a document value"))
         return out
+
+    def _from_mapping_key(self, fi: FuncInfo, e: ast.AST) -> bool:
+        return self._is_dict_key(fi, e)
+
+    def _key_collection(self, fi: FuncInfo, e: ast.AST, depth: int = 0) -> bool:
+        """e is a collection made of the keys of a document map (d.keys(), frozenset(d.keys()), set operations on it)."""
+        if depth > 12:
+            return False
+        if isinstance(e, ast.Call):
+            if isinstance(e.func, ast.Attribute) and e.func.attr == "keys" and self.is_tainted(fi, e.func.value):
+                return True
+            if isinstance(e.func, ast.Attribute) and e.func.attr in ("difference", "intersection", "union", "symmetric_difference", "copy"):
+                return self._key_collection(fi, e.func.value, depth + 1)
+            if call_name(e) in ("frozenset", "set", "list", "sorted", "tuple") and e.args:
+                return self._key_collection(fi, e.args[0], depth + 1)
+            return False
+        if isinstance(e, ast.Name):
+            vals = [v for v in assignments_to(fi.node, e.id) if isinstance(v, ast.AST) and not isinstance(v, (ast.For, ast.comprehension, ast.With, ast.ExceptHandler, ast.AugAssign))]
+            return bool(vals) and any(self._key_collection(fi, v, depth + 1) for v in vals)
+        if isinstance(e, ast.BinOp) and isinstance(e.op, (ast.Sub, ast.BitAnd, ast.BitOr)):
+            return self._key_collection(fi, e.left, depth + 1)
+        return False
 
     def _is_dict_key(self, fi: FuncInfo, e: ast.AST) -> bool:
         """e is a name bound to the keys of a mapping (for k, v in d.items() / for k in d.keys()): hashable by construction."""
@@ -388,6 +571,23 @@ class EscapeAnalysis:
 
     # ------------------------------------------------------------------ fixed point
     def run(self, roots: list[str]) -> None:
+        """Outer iteration over the set of object fields that may keep a document value (found at constructor calls)."""
+        self.field_taint = set()
+        self.field_key_taint = set()
+        for _round in range(4):
+            self.new_field_taint: set[tuple[str, str]] = set()
+            self.new_field_key_taint = set()
+            self.taint = {k: set(v) for k, v in self._entry_taint.items()}
+            self._local_taint_cache.clear()
+            self.escapes = {}
+            self.n_ops = 0
+            self._run_once(roots)
+            if self.new_field_taint <= self.field_taint and self.new_field_key_taint <= self.field_key_taint:
+                break
+            self.field_taint |= self.new_field_taint
+            self.field_key_taint |= self.new_field_key_taint
+
+    def _run_once(self, roots: list[str]) -> None:
         prog = self.prog
         # 1. propagate taint through calls (worklist)
         work = list(roots)
@@ -401,6 +601,12 @@ class EscapeAnalysis:
             for site in self.cg.sites.get(q, []):
                 c = site.node
                 if not isinstance(c, ast.Call):
+                    # property reads and operator dunders: the callee is reached (its raises count), no arguments to track
+                    for callee in site.callees:
+                        cf = prog.funcs.get(callee)
+                        if cf is not None and self.in_scope(cf) and (q, callee) not in seen_pairs:
+                            seen_pairs.add((q, callee))
+                            work.append(callee)
                     continue
                 for callee in site.callees:
                     cf = prog.funcs.get(callee)
@@ -410,7 +616,9 @@ class EscapeAnalysis:
                     if callee.endswith(("__init__", "__post_init__", "__new__")):
                         cq = callee.rsplit(".", 1)[0]
                         if callee.endswith("__post_init__") or (callee.endswith("__init__") and False):
-                            flds = list(prog.dataclass_fields(cq).keys()) if cq in prog.classes else []
+                            ip = init_params(prog, cq) if cq in prog.classes else []
+                            flds = [n_ for n_, _ in ip]
+                            real = {n_ for n_, is_f in ip if is_f}
                             extra = [p_ for p_ in cf.params() if p_ != "self"]  # InitVar parameters
                             if extra and any(self.is_tainted(fi, a) for a in list(c.args) + [k.value for k in c.keywords]):
                                 if set(extra) - self.taint.get(callee, set()):
@@ -425,6 +633,23 @@ class EscapeAnalysis:
                             for kw in c.keywords:
                                 if kw.arg and self.arg_tainted_at(fi, kw.value, c):
                                     newt.add("self." + kw.arg)
+                            # **kwargs built by a helper that returns a dict display (from_dict_common_params): key → field
+                            for kw in c.keywords:
+                                if kw.arg is None and isinstance(kw.value, ast.Name):
+                                    for kname, vexpr, hfi, hret in self._kwargs_sources(fi, kw.value.id):
+                                        if kname in real and self.arg_tainted_at(hfi, vexpr, hret):
+                                            newt.add("self." + kname)
+                            keyonly = set()
+                            for kw in c.keywords:
+                                if kw.arg and isinstance(kw.value, ast.DictComp):
+                                    keyonly.add("self." + kw.arg)
+                            for nm in newt:
+                                if nm[5:] in real:
+                                    if nm in keyonly:
+                                        self.new_field_key_taint.add((cq, nm[5:]))
+                                    else:
+                                        self.new_field_taint.add((cq, nm[5:]))
+                            newt -= keyonly
                             if newt - self.taint.get(callee, set()):
                                 self.taint.setdefault(callee, set()).update(newt)
                                 self._local_taint_cache.clear()
